@@ -25,20 +25,21 @@ import (
 )
 
 type propAbs struct {
-	Kind    string `json:"kind"`
-	Sender  string `json:"sender"`
-	CD      int    `json:"cd"`
-	Cols    int    `json:"cols"`
-	Bals    string `json:"bals"`
-	Locked  bool   `json:"locked"`
-	Peers   string `json:"peers"`
-	Parent  string `json:"parent"`
-	Assets  string `json:"assets"`
-	Funds   string `json:"funds"`
-	FA      string `json:"fa"`
-	Parents string `json:"parents"`
-	IMaps   string `json:"imaps"`
-	Busy    bool   `json:"busy"`
+	Kind      string `json:"kind"`
+	Sender    string `json:"sender"`
+	CD        int    `json:"cd"`
+	Cols      int    `json:"cols"`
+	Bals      string `json:"bals"`
+	Locked    bool   `json:"locked"`
+	LockedAmt int    `json:"lockedamt"`
+	Peers     string `json:"peers"`
+	Parent    string `json:"parent"`
+	Assets    string `json:"assets"`
+	Funds     string `json:"funds"`
+	FA        string `json:"fa"`
+	Parents   string `json:"parents"`
+	IMaps     string `json:"imaps"`
+	Busy      bool   `json:"busy"`
 }
 
 type propCase struct {
@@ -220,7 +221,7 @@ func buildProposal(w *World, a propAbs, h, i, s *Party, parentID channel.ID, oth
 	if a.Locked {
 		bs := make([]channel.Bal, len(al.Assets))
 		for x := range bs {
-			bs[x] = big.NewInt(1)
+			bs[x] = big.NewInt(int64(a.LockedAmt))
 		}
 		al.Locked = []channel.SubAlloc{*channel.NewSubAlloc(channel.ID{9, 9}, bs, nil)}
 	}
